@@ -46,9 +46,11 @@ CLAIMED = {
             "The two backends agree structurally on selection predicates, state constants, data-type filing, sort orders, limits and upsert "
             "semantics for every trait method. Observable equality on arbitrary sequences and LRU eviction are not decided.", "DESIGN.md §4 C10"),
     "C12": ("SQL bracket analysis on MIR: success-dominance of every write by the opening statement, COMMIT/RELEASE on Ok returns, "
-            "ROLLBACK on error exits (or the RAII form: rusqlite Transaction/Savepoint guard, commit on Ok, rollback on drop), single connection guard",
-            "Decides the 'in particular' clause only: snapshot creation, restore and relay replacement are each one transaction/savepoint "
-            "bracket on every path. Crash-recoverability of multi-statement API calls is not decided (stated in DESIGN).", "DESIGN.md §4 C12"),
+            "ROLLBACK on error exits (or the RAII form: rusqlite Transaction/Savepoint guard, commit on Ok, rollback on drop), single connection guard; "
+            "write-ordering rule on the receive path (no storage write is reachable after the success edge of the processed-record write)",
+            "Decides the 'in particular' clause (snapshot creation, restore and relay replacement are each one transaction/savepoint bracket on "
+            "every path) and one necessary condition of the retry clause: the processed record a retry short-circuits on is the last write of "
+            "the call (fixed F21; known finding F22). Recoverability at every crash point of the multi-statement API calls is not decided.", "DESIGN.md §4 C12"),
     "C18": ("decision-table enumeration of comparators / sort closures / pointer update with callee+closure inlining, ORDER BY extraction, "
             "boolean-guard dominance (limit validation), overflow-assert and cast rules for pagination",
             "Both comparators are lexicographic total orders equal to the SQL ORDER BY lists and to the memory sort closures; limit "
